@@ -73,7 +73,7 @@ claim("C06", "proof",
       "The operator impl table of the type-checked crates (all features, both back-ends, astronomical crate, fixtures) is enumerated and must EQUAL the closure of the "
       "declared derivations plus the per-type standard set (nothing missing, nothing extra, each once, three reference forms each); every Mul/Div entry is consistent with an "
       "independent dimension-vector table; declared derivations equal independently written defining equations; no generic operator impls except the Rate forms; "
-      "comparisons and +,- only like with like. thorough: rustc's verdict on the generated operator matrix.",
+      "comparisons and +,- only like with like. thorough: rustc's verdict on the generated operator matrix (catalogue 15x15x6 in both back-ends, astronomical 5x5x6) and on the matrices of seeded random conflict-free derivation graphs.",
       "Trusted: rustc trait selection (an operator expression on concrete types type-checks iff the impl table has a matching entry; operators do not auto-ref); oracle/dimensions.json, oracle/derivations.json.",
       "impl-table enumeration from the type-checked program vs declaration closure and dimension oracle (static, exhaustive)", "DESIGN.md §4 C06")
 claim("C09", "proof",
@@ -97,7 +97,7 @@ claim("C14", "other",
 claim("C15", "other",
       "PARTLY decided (structure only): every generated Display impl forwards to Quantity::fmt / Unit::fmt with the caller's formatter; Quantity::fmt writes exactly once through "
       "pad_integral(amount >= 0, \"\", format!(\"{|amount|} {unit}\")) with the precision forwarded iff given (templates decoded from the lowered format_args byte code), bare amount for unit-less "
-      "values; Unit::fmt is the symbol under string formatting; Rate writes 'term / per' omitting a per-multiple of one (6 cases). NOT decided: digit generation, rounding at a precision, "
+      "values; Unit::fmt is the symbol under string formatting; Rate writes 'term / per' omitting a per-multiple of one (6 cases); the displayed symbol resolves to the stored unit (lookup model on every table). NOT decided: digit generation, rounding at a precision, "
       "width/fill/alignment and '+' handling inside std/fpdec formatting, and the parse-back clause.",
       "Trusted: std and fpdec formatting code; the format_args! byte-code layout of the pinned toolchain (decoder fails closed).",
       "data-flow into the formatting calls + template decoding (static); behavioural clauses not applicable", "DESIGN.md §4 C15")
@@ -115,7 +115,8 @@ claim("C18", "other",
       "MIR panic-site inventory + call-graph reachability + table-based discharge (static)", "DESIGN.md §4 C18")
 claim("C19", "proof",
       "Finite lattice: rustc's type-check verdict on 30 (quick) / all 128 (thorough) configurations; independent of sampling: feature closure ⊇ module-use graph per feature, module gates, "
-      "no std:: in catalogue modules, all cfg(feature) sites classified, and every body shared by a small and the full configuration has an identical fingerprint (additivity). "
+      "no std:: in catalogue modules, all cfg(feature) sites classified, every body shared by a small and the full configuration has an identical fingerprint (additivity, incl. f64-all vs f64+serde), "
+      "optional dependencies are only activated by their namesake feature. "
       "thorough adds per-feature configurations: quantity and derivation operators exposed.",
       "Trusted: cargo feature resolution, rustc type checking. `Results unchanged` is decided as body identity of shared items, not by evaluating an operation corpus.",
       "compiler verdict over the configuration lattice + feature/module graph + cross-configuration body identity (static)", "DESIGN.md §4 C19")
@@ -129,7 +130,7 @@ claim("C11", "translation_validation",
       "Quantifier over programs: only the instances in the tree and the fixed corpus (seeded by VERIF_SEED) — arbitrary random definitions are not decided. Trusted: rustc expansion and type checking.",
       "translation validation between two independent extractors + type-checked witness corpus (static)", "DESIGN.md §4 C11")
 claim("C12", "other",
-      "Compile-fail witnesses with compiling twins: 36 malformed definitions (every defect class of the property x base definitions with / without reference unit / derived) plus the 13 tests/ui "
+      "Compile-fail witnesses with compiling twins: 62 malformed definitions (every defect class of the property x base definitions with / without reference unit / derived) plus the 13 tests/ui "
       "programs, each type-checked on its own; verdict = rustc error with every primary span inside the offending definition, the well-formed twin compiles; for tests/ui the macro's own messages "
       "and positions recorded in the repository must still be reported.",
       "Quantifier over programs: only the witness corpus. Trusted: rustc/cargo JSON diagnostics.",
